@@ -31,6 +31,30 @@ func CheckNoDirectories(paths []string) error {
 	return nil
 }
 
+// AbsPhysical makes path absolute the way the kernel walks it. filepath.Abs
+// joins the working directory as $PWD spells it - the logical name a shell
+// leaves behind after `cd` through a symbolic link - and cleans ".." away as
+// text: from such a directory "../foo.dsc" then names a file next to the
+// link instead of the one the process would open. Here the working directory
+// and the directory part of the path are resolved first.
+func AbsPhysical(path string) (string, error) {
+	if !filepath.IsAbs(path) {
+		wd, err := os.Getwd()
+		if err != nil {
+			return "", err
+		}
+		if physical, err := filepath.EvalSymlinks(wd); err == nil {
+			wd = physical
+		}
+		path = wd + string(filepath.Separator) + path
+	}
+	dir, base := filepath.Split(path)
+	if physical, err := filepath.EvalSymlinks(dir); err == nil {
+		dir = physical
+	}
+	return filepath.Join(dir, base), nil
+}
+
 // ResolveDir names the directory dest the way the kernel finds it: a
 // destination given as "<symlink>/.." is one place when it is opened and
 // another when its path is tidied up as text (filepath.Dir, path.Join), and
